@@ -122,6 +122,8 @@ def gen_cases(rng, tier):
             sub = None
         else:
             sub = rng.sample(ids, rng.randrange(1, len(ids) + 1))
+        if k % 12 == 3:
+            sub = []                   # an empty request: nothing is asked for, nothing is reported
         open_ex = rng.random() < 0.3 and k % 4 != 1
         cases.append({"net": net, "solver": "glpk_exact" if k % 6 == 5 else "glpk", "rxn_list": sub,
                       "objects": rng.random() < 0.5, "open": open_ex, "processes": 2 if k % 10 == 7 else 1,
